@@ -125,14 +125,14 @@ def c19_reader_shapes(tier, seed=0):
     # (5) single-edit mutations of footers: deletions and two-byte-character substitutions (class-fixed, fast) are all run in
     # both tiers; of the shapes with a free ASCII byte (substitution, insertion) the quick tier runs a seeded sample
     fixed_m = []; free_m = []
-    for b in (MUT_BASES if not thorough else MUT_BASES + FIXED + ALT):
+    for b in (MUT_BASES if not thorough else MUT_BASES + FIXED):      # (the long alternating templates with a free byte near their start do not finish within the cap)
         for m in mutations(b): (free_m if '?' in m else fixed_m).append(m)
     if not thorough:
         rnd = random.Random(1000 + seed); free_m = rnd.sample(free_m, 40)
     for m in fixed_m + free_m:
         out.append(('v3 footer mutation %s' % tpl_str(m), v2_file(0x33, (0, 0, 0, 0, 0, 0), (0, 0, 0, 1, 1, 0), m), ('on',)))
     # (6) short footers with every inner byte free
-    for k in ([1, 2] if not thorough else [1, 2, 3, 4]):
+    for k in ([1, 2] if not thorough else [1, 2, 3]):
         out.append(('v3 footer: newline, %d free ASCII bytes, newline' % k, v2_file(0x33, (0, 0, 0, 0, 0, 0), (0, 0, 0, 0, 1, 0), 'N' + '?' * k + 'N'), ('on',)))
     for k in ([1, 2, 3] if not thorough else [1, 2, 3, 4]):
         out.append(('v3 footer: %d free ASCII bytes' % k, v2_file(0x33, (0, 0, 0, 0, 0, 0), (0, 0, 0, 0, 1, 0), '?' * k), ('on',)))
